@@ -64,12 +64,12 @@ class Settings:
     @contextmanager
     def __call__(self, **options):
         current = {}
-        for key, value in options.items():
-            getattr(self, key)  # raise AttributeError for unknown options
-            current[key] = getattr(self._tls, key, _NOT_SET)
-            setattr(self._tls, key, value)
-
         try:
+            for key, value in options.items():
+                getattr(self, key)  # raise AttributeError for unknown options
+                current[key] = getattr(self._tls, key, _NOT_SET)
+                setattr(self._tls, key, value)
+
             yield
         finally:
             for key, value in current.items():
